@@ -103,7 +103,8 @@ class Obligation:
 
 
 class PathResult:
-    def __init__(self, outcome, value, pc, facts, obligations, writes, decisions, side, log):
+    def __init__(self, outcome, value, pc, facts, obligations, writes, decisions, side, log, ps=None):
+        self.ps = ps if ps is not None else {}
         self.outcome = outcome  # 'return' | 'raise' | 'unsupported'
         self.value = value
         self.pc = pc
@@ -197,6 +198,14 @@ class Engine:
                 self.facts.append(f)
             else:
                 self.oblige(f"side:{kind}", f, kind="side")
+
+    def focus(self, r):
+        """Make path result r the current path again (its reductions / groups / touched log), e.g. before property
+        code evaluates element terms of r's values."""
+        self.ps = r.ps
+        self.ps["touched"] = []
+        self.ps["lazy_facts"] = []
+        self.side_seen = len(self.alg.side)
 
     def drain(self):
         """Facts (definitional axioms of RNE / undefined casts) produced by element evaluations done *after*
@@ -445,7 +454,7 @@ class Engine:
             if outcome == "infeasible":
                 continue
             results.append(PathResult(outcome, value, list(self.pc), list(self.facts), list(self.obls),
-                                      list(self.writes), list(self.decisions), list(self.alg.side), list(self.log)))
+                                      list(self.writes), list(self.decisions), list(self.alg.side), list(self.log), self.ps))
         return results
 
     # ------------------------------------------------------------------ calls
